@@ -23,7 +23,17 @@ type rgSig struct {
 	Guards map[string][]string `json:"guards,omitempty"`
 }
 
-// fieldReads: "Type.field" for every field of a named struct type that fn (with closures) loads.
+// qualTypeName: the type's name with its package name in front. Converters between two packages that name their
+// types alike (oc.IbgpConfig and api.IbgpConfig) read one and write the other: unqualified, the write of the one hid
+// the read of the other (seed C18-e-2).
+func qualTypeName(n *types.Named) string {
+	if p := n.Obj().Pkg(); p != nil {
+		return p.Name() + "." + n.Obj().Name()
+	}
+	return n.Obj().Name()
+}
+
+// fieldReads: "pkg.Type.field" for every field of a named struct type that fn (with closures) loads.
 func fieldReads(fn *ssa.Function, dst map[string]bool) {
 	out := map[string]bool{} // this function's own reads; merged into dst at the end
 	defer func() {
@@ -42,13 +52,13 @@ func fieldReads(fn *ssa.Function, dst map[string]bool) {
 					}
 					if fa, ok := x.X.(*ssa.FieldAddr); ok {
 						if n := ir.NamedOf(ir.Deref(fa.X.Type())); n != nil {
-							out[n.Obj().Name()+"."+fieldOfName(fa)] = true
+							out[qualTypeName(n)+"."+fieldOfName(fa)] = true
 						}
 					}
 				case *ssa.Field:
 					if n := ir.NamedOf(x.X.Type()); n != nil {
 						if st, ok := n.Underlying().(*types.Struct); ok && x.Field < st.NumFields() {
-							out[n.Obj().Name()+"."+st.Field(x.Field).Name()] = true
+							out[qualTypeName(n)+"."+st.Field(x.Field).Name()] = true
 						}
 					}
 				}
@@ -69,7 +79,7 @@ func fieldReads(fn *ssa.Function, dst map[string]bool) {
 				if st, ok := in.(*ssa.Store); ok {
 					if fa, ok := st.Addr.(*ssa.FieldAddr); ok {
 						if n := ir.NamedOf(ir.Deref(fa.X.Type())); n != nil {
-							written[n.Obj().Name()+"."+fieldOfName(fa)] = true
+							written[qualTypeName(n)+"."+fieldOfName(fa)] = true
 						}
 					}
 				}
